@@ -762,6 +762,11 @@ def unpack_dataclass(spec: ValueSpec) -> Optional[Expression]:
             method_name, method_loc
         ) != method_loc and (
             spec.origin_type is not spec.builder.cls
+            # another specialisation of the generic class being built
+            or spec.builder.get_unpack_method_name(
+                spec.builder.initial_type_args, spec.builder.format_name
+            )
+            != method_name
             or spec.builder.get_unpack_method_name(
                 type_args=type_args,
                 format_name=spec.builder.format_name,
